@@ -23,7 +23,7 @@ func c10Prelude() []string {
 		"c = mkc([0])",
 		"pair = (n) -> [n - 1, n + 1]",
 		"trip = (n) -> [0, n * n, n]",
-		"rows = (p, n) -> if n <= 0 [p] else rows(p + [0], n - 1) + rows(p + [1], n - 1)",
+		"rows = (p, n) -> if n <= 0 {\n  [p]\n} else rows(p + [0], n - 1) + rows(p + [1], n - 1)",
 	}
 }
 
@@ -65,6 +65,9 @@ func c10Ops() []string {
 		"sz = sx + \"r\"",
 		"sy = sx + \"s\"",
 		"y = z[0:1] + x[1:2]",
+		// statements that end in a runtime error after (re)defining functions whose bodies hold literals
+		"{\n  lit = () -> [1, 2, 3]\n  c = mkc([0])\n  keep[99]\n}",
+		"{\n  trip = (n) -> [0, n * n, n]\n  sz = \"abc\"[1:2] + 1\n}",
 	}
 	for i := 0; i <= 3; i++ {
 		for j := i; j <= 3; j++ {
@@ -92,9 +95,15 @@ func c10Judge(seq []int) (sig, detail, key string, sharing bool) {
 		stmts = append(stmts, ops[o], c10Observer)
 	}
 	var keys []string
+	echoes := []string{}
 	opt := sess.Options{OnImplStmt: func(i int, s *impl.Session, r impl.StmtResult) {
 		if s.Dead {
 			return
+		}
+		if r.Err == "" {
+			echoes = append(echoes, "> "+r.Display+"\n")
+		} else {
+			echoes = append(echoes, "")
 		}
 		infos := []arrInfo{}
 		for _, name := range []string{"x", "y", "z", "keep"} {
@@ -129,7 +138,35 @@ func c10Judge(seq []int) (sig, detail, key string, sharing bool) {
 	if len(keys) > 0 {
 		key = keys[len(keys)-1]
 	}
+	// the same statements typed into the real read-eval loop (which compiles and runs them through processInput):
+	// every observer must be echoed exactly as the in-process run (already equal to the reference) displays it
+	failing := false
+	for _, o := range seq {
+		if strings.HasPrefix(ops[o], "{") {
+			failing = true
+		}
+	}
+	if len(seq) <= 2 || failing {
+		parts := c08ViaLoop(stmts)
+		if len(parts) != len(stmts) || len(echoes) != len(stmts) {
+			return "immutability:read-eval-loop-lost-statements", fmt.Sprintf("operations %q typed into the read-eval loop: %d of %d statements answered (%d run in process)", opNames(seq), len(parts), len(stmts), len(echoes)), "", sharing
+		}
+		for i := len(c10Prelude()) + 1; i < len(stmts); i += 2 {
+			if parts[i] != echoes[i] {
+				return "immutability:read-eval-loop", fmt.Sprintf("operations %q typed into the read-eval loop: after operation %d the observer %s is echoed as %q; the values are %q", opNames(seq), (i-len(c10Prelude()))/2+1, c10Observer, parts[i], echoes[i]), "", sharing
+			}
+		}
+	}
 	return "", "", key, sharing
+}
+
+func opNames(seq []int) []string {
+	ops := c10Ops()
+	names := make([]string, len(seq))
+	for i, x := range seq {
+		names[i] = ops[x]
+	}
+	return names
 }
 
 func overlap(a, b arrInfo) bool {
@@ -143,7 +180,7 @@ func init() {
 	core.Register(&core.Check{
 		ID:    "C10",
 		Level: "model_checking",
-		Rule: "explicit-state search over all sequences of length <= 3 (quick) / 4 (thorough) of 46 array/string operations on the globals x, y, z, sx, sy, sz, keep (literals at top level, inside a function called repeatedly and inside a loop; every slice x[i:j]; concatenations of slices, of slices of slices, nested arrays; passing to a concatenating function; iterating with elems; capture in a closure and in a generator that concatenate; string analogues). After every operation the observer [x, y, z, sx, sy, sz, keep, lit(), c(), pair(1), trip(2)] is evaluated on the real VM and on the reference model (which copies always): every variable not assigned, every earlier result and every literal must still print as before. " +
+		Rule: "explicit-state search over all sequences of length <= 3 (quick) / 4 (thorough) of 48 array/string operations on the globals x, y, z, sx, sy, sz, keep (literals at top level, inside a function called repeatedly and inside a loop; every slice x[i:j]; concatenations of slices, of slices of slices, nested arrays; passing to a concatenating function; iterating with elems; capture in a closure and in a generator that concatenate; string analogues). After every operation the observer [x, y, z, sx, sy, sz, keep, lit(), c(), pair(1), trip(2)] is evaluated on the real VM and on the reference model (which copies always): every variable not assigned, every earlier result and every literal must still print as before; sequences of length <= 2 and all sequences containing a statement that ends in a runtime error are also typed into the real read-eval loop (processInput), whose echo of every observer must equal the in-process value. " +
 			"states = distinct (renderings, len/cap of every live array, backing-array sharing relation) read through the value hook; transitions = operations applied; distinct_nontrivial = sequences after which two live arrays share a backing array with spare capacity (so an in-place append could have collided)",
 		Assumptions: []string{"reference model refsem copies on every operation", "array layout is read through value.VerifArrayInfo (size of value.Type assumed 24 bytes for the overlap test)"},
 		Exec: func(payload string) (string, string) {
